@@ -51,6 +51,25 @@ var Metas = []map[string]string{
 	{"n": "1"},            // disjoint key: merge keeps old keys
 }
 
+// BigMetas appends three large shapes used by the directed merge-boundary sequences (not by the BFS alphabet):
+// 5 = 32768 keys a*, 6 = 32768 keys b* (union with 5: 65536 entries, one more than the snapshot format can count),
+// 7 = 32767 keys c* (union with 5: exactly 65535).
+func BigMetas() {
+	if len(Metas) > 5 {
+		return
+	}
+	for _, sh := range []struct {
+		p string
+		n int
+	}{{"a", 32768}, {"b", 32768}, {"c", 32767}} {
+		m := make(map[string]string, sh.n)
+		for i := 0; i < sh.n; i++ {
+			m[fmt.Sprintf("%s%05d", sh.p, i)] = ""
+		}
+		Metas = append(Metas, m)
+	}
+}
+
 var Vecs = [][]float32{{1, 1}, {2, 1}, {3, 3}, {1}} // index 3 has the wrong dimension (only used by dataset-level checks)
 
 // LevelOf fixes the level an id is proposed with (drawn by the proposer, part of the entry).
@@ -132,6 +151,10 @@ func RefApply(ref idxlib.Ref, o Op) Outcome {
 				if _, has := m[k]; !has {
 					m[k] = v
 				}
+			}
+			if index.Metadata(m).Validate() != nil {
+				// what the update would store cannot be stored: refused, nothing changes
+				return index.MetadataTooLargeError.Error()
 			}
 			ref[id] = &idxlib.Item{Vec: Vecs[it.Vec], Meta: m, Level: cur.Level}
 		case "rem":
